@@ -63,6 +63,8 @@ pub enum Sig {
 pub enum Op {
     Start(usize),
     Jobs,
+    /// `jobs ID`: reports one job
+    JobsOf(Id),
     Fg(Id),
     Bg(Id),
     Wait(Option<Id>),
@@ -92,6 +94,7 @@ fn op_text(op: &Op, k: usize) -> String {
     match op {
         Op::Start(t) => format!("{}&", job_text(k, *t)),
         Op::Jobs => "jobs".into(),
+        Op::JobsOf(id) => format!("jobs {}", id_text(*id)),
         Op::Fg(id) => format!("fg {}", id_text(*id)),
         Op::Bg(id) => format!("bg {}", id_text(*id)),
         Op::Wait(None) => "wait".into(),
@@ -329,6 +332,9 @@ fn enabled(m: &MState, depth: usize, thorough: bool) -> Vec<Op> {
         if fg_ok {
             v.push(Op::Fg(id));
         }
+        if thorough && id != Id::Default {
+            v.push(Op::JobsOf(id));
+        }
         v.push(Op::Bg(id));
         if id != Id::Default {
             let wait_ok = match &target {
@@ -419,7 +425,7 @@ fn step(pre: &MState, op: &Op, serial: usize, o: &Obs) -> Result<MState, String>
     let mut target: Option<usize> = None;
     let mut new_job = false;
     let id_of = |op: &Op| match op {
-        Op::Fg(id) | Op::Bg(id) | Op::Kill(_, id) => Some(*id),
+        Op::Fg(id) | Op::Bg(id) | Op::Kill(_, id) | Op::JobsOf(id) => Some(*id),
         Op::Wait(Some(id)) => Some(*id),
         _ => None,
     };
@@ -476,6 +482,14 @@ fn step(pre: &MState, op: &Op, serial: usize, o: &Obs) -> Result<MState, String>
                             Ev::Hang => return Err("model: fg on a hanging job generated".into()),
                         }
                     }
+                }
+                Op::JobsOf(_) => {
+                    let line = jobs_line(i, pre, &pre.jobs[&i]);
+                    want_stdout = Some(line);
+                    if !j.view.alive() {
+                        removed.push(i);
+                    }
+                    j.changed = false;
                 }
                 Op::Bg(_) => {
                     want_stdout = Some(format!("[{}] {}\n", i + 1, j.name));
@@ -565,7 +579,7 @@ fn step(pre: &MState, op: &Op, serial: usize, o: &Obs) -> Result<MState, String>
         let j = post.jobs.get_mut(i).unwrap();
         j.view = v;
         j.pc = pc;
-        if matches!(op, Op::Jobs) && oj.changed {
+        if (matches!(op, Op::Jobs) || (matches!(op, Op::JobsOf(_)) && Some(*i) == target)) && oj.changed {
             return Err(format!("`jobs` reported job {} but its state is still marked as unreported", i + 1));
         }
         j.changed = oj.changed;
@@ -708,7 +722,7 @@ fn run_history(hist: &[Op], policy_last: bool) -> Result<MState, (String, String
 fn op_kind(op: &Op) -> &'static str {
     match op {
         Op::Start(_) => "start",
-        Op::Jobs => "jobs",
+        Op::Jobs | Op::JobsOf(_) => "jobs",
         Op::Fg(_) => "fg",
         Op::Bg(_) => "bg",
         Op::Wait(_) | Op::WaitBang => "wait",
